@@ -19,9 +19,10 @@ ENGINES = [
                        'namespace on inputs rebuilt from the model); built-in mutants must be killed '
                        '(thorough tier)'},
     {'name': 'effects', 'path': 'vf/effects',
-     'serves_properties': ['C02', 'C06', 'C08', 'C10', 'C12', 'C16', 'C17', 'C18', 'C19', 'C20'],
+     'serves_properties': ['C02', 'C06', 'C08', 'C09', 'C10', 'C12', 'C13', 'C15', 'C16', 'C17', 'C18',
+                           'C19', 'C20'],
      'kind_free_text': 'deductive frame verification: modifies = {} for every public entry point, '
-                       'ownership of sliced catalogs, loop independence; modular may-alias / '
+                       'ownership of sliced catalogs and of shallow model copies, loop independence; modular may-alias / '
                        'write-effect analysis of the real source with callee summaries'},
     {'name': 'coherence', 'path': 'vf/coherence',
      'serves_properties': ['C01', 'C02', 'C05', 'C07', 'C08', 'C09', 'C11', 'C12', 'C13', 'C14',
@@ -64,7 +65,9 @@ CLAIMED = {
                      'at a time); the summed values are weight x data (weight x error^2 in float) '
                      'over exactly the good pixels; area_overlap sums the weights with masked pixels '
                      'counting zero; the NDData call form is the bare-array form on the container\'s '
-                     'own data, mask and uncertainty with the same method and subpixels. The sums '
+                     'own data, mask and uncertainty with the same method and subpixels; '
+                     'ApertureMask.get_values returns weight x data over exactly the on-image, '
+                     'positive-weight, unmasked pixels of the box (empty without overlap). The sums '
                      'end-to-end are checked bounded against a pixel-loop oracle.',
                 note='numpy aliasing tables; the weighted-sum postcondition is bounded, not proved'),
     'C03': dict(engine='pyvc', technique=f'{_T} (relational two-run contracts by self-composition) '
@@ -73,7 +76,9 @@ CLAIMED = {
                      'and get_overlap_slices shift by exactly the integer offset when box and '
                      'frame are embedded in a larger canvas, and swap axes under transposition; the '
                      'star finders map user positions to the unique pixel n with n-1/2 < x <= n+1/2 '
-                     '(translation covariant). '
+                     '(translation covariant); the cut-out helper _overlap_slices (centroid boxes, PSF fit '
+                     'windows, model rendering) shifts its window by the offset for footprints inside the '
+                     'original frame and swaps axes under transposition. '
                      'End-to-end covariance of every listed API under translation and '
                      'transposition is checked bounded on seeded scenes.',
                 note='relational two-run property: only the index arithmetic is proved'),
@@ -117,7 +122,8 @@ CLAIMED = {
                      'the output does not depend on nproc or on the order in which workers finish; '
                      'the relabelling table maps background to 0, no source pixel to background, '
                      'and present labels order-preservingly to start.. (with or without background '
-                     'pixels in the cutout). '
+                     'pixels in the cutout); after the consecutive relabelling every parent of the deblend '
+                     'label map keeps its own children, each renamed through the relabel table. '
                      'Refinement facts and real spawn pools with permuted completion orders are '
                      'checked bounded.',
                 note='watershed / ndimage contracts not assumed; progress-bar calls assumed '
@@ -140,7 +146,8 @@ CLAIMED = {
                      'mutated in place (directly or through a view) by a public method '
                      '(SourceCatalog, ApertureStats, finder catalogs); SourceCatalog bounding boxes '
                      'of row k come from row k\'s own slices. Commutation cat[idx].p == cat.p[idx] is checked bounded for every '
-                     'public property x index form x evaluation order.',
+                     'public property x index form x evaluation order (incl. one-row / one-pixel sources and a '
+                     'zero Kron radius).',
                 note='init_attr tuples are literals (checked); commutation is bounded'),
     'C09': dict(engine='coherence', technique=f'{_T} (getter purity, configuration immutability, '
                                               f'per-call reset, descriptor invalidation) + {_B}',
@@ -169,20 +176,24 @@ CLAIMED = {
                      'fill_value exactly on coverage-mask pixels; Background2D getter purity. Mesh values, equivariance, '
                      'fill and range relations are checked bounded against a per-box oracle.',
                 note='A-real; numerical relations bounded only'),
-    'C12': dict(engine='pyvc', technique=f'{_T} (_make_mask, configuration, per-call reset, '
-                                         f'frames) + {_B}',
+    'C12': dict(engine='pyvc', technique=f'{_T} (_make_mask, fit window / npixfit, flags, '
+                                         f'configuration, per-call reset, frames) + {_B}',
                 text='Proved: the ungroup indices are a permutation listing the fitted rows by '
                      'increasing source id and results are gathered through it; '
                      '_make_mask returns mask | non-finite (None iff nothing to mask), '
                      'per row flags 1 / 2 / 4 follow npixfit, the image bounds (x against columns) '
-                     'and the flux sign; LocalBackground hands the caller\'s data and mask to the '
+                     'and the flux sign; the pixels handed to the fitter for a source are exactly the '
+                     'unmasked pixels of the fit_shape window centred on its initial position and '
+                     'clipped to the image (through the verified _overlap_slices contract), with their '
+                     'own coordinates and the data minus the local background, and npixfit is their '
+                     'number; LocalBackground hands the caller\'s data and mask to the '
                      'annulus statistics, one estimate per position; '
                      'PSFPhotometry.__call__ rebinds no configuration, resets its results, modifies '
                      'no argument. Recovery of rendered scenes, grouping ids vs brute-force single '
                      'linkage, flags and ordering are checked bounded.',
                 note='least-squares convergence cannot be proved; bounded only'),
-    'C13': dict(engine='pyvc+coherence', technique=f'{_T} (closed forms, relational contracts, '
-                                                   f'ImagePSF / bilinear weights) + {_B}',
+    'C13': dict(engine='pyvc+coherence+effects', technique=f'{_T} (closed forms, relational contracts, '
+                                                   f'ImagePSF / bilinear weights, copy ownership) + {_B}',
                 text='Proved (exp/erf/sin/cos uninterpreted with stated lemmas): the Gaussian PSF / '
                      'PRF evaluate methods equal their closed forms; the elliptical Gaussian with '
                      'equal widths is the circular one at any rotation; sigma and FWHM forms '
@@ -191,7 +202,9 @@ CLAIMED = {
                      'its origin is stored as given in (x, y) order; '
                      'the four bilinear weights of GriddedPSFModel, its origin (array centre, '
                      'half-integers for even sizes) and the grid cell chosen for a position (the '
-                     'one containing it, else the nearest); configuration immutability. '
+                     'one containing it, else the nearest); configuration immutability; no method writes in '
+                     'place into an attribute that GriddedPSFModel.copy() shares with the original '
+                     '(the keyed interpolator cache excepted). '
                      'Normalisation sums and gridded interpolation are checked bounded.',
                 note='integrals / sums are bounded only; known finding F24 (rotated GaussianPRF)'),
     'C14': dict(engine='pyvc+coherence', technique=f'{_T} (find_peaks candidate mask, brightest '
@@ -204,7 +217,8 @@ CLAIMED = {
                      'IRAF); supplied xycoords are rounded to the pixel containing the position; '
                      'finder calls never rebind '
                      'configuration. The finders end-to-end are checked bounded against definition '
-                     'oracles.',
+                     'oracles (incl. noise-free scenes with single-pixel sources whose shape moments are '
+                     'undefined).',
                 note='maximum_filter output is a symbolic input of the block contract; argsort '
                      'specified as a sorting permutation'),
     'C15': dict(engine='pyvc+rtc', technique=f'{_T} (dtype discipline at the sites under contract) '
@@ -215,7 +229,9 @@ CLAIMED = {
                      'before it is multiplied or squared, and is never the dtype a computed value is '
                      'cast to. Dtype / layout / container independence of everything else (compiled '
                      'numpy / scipy kernels): 32 representations x 46 entry-point configurations '
-                     'compared with the float64 reference, units on outputs, unit mixes rejected.',
+                     'compared with the float64 reference, units on outputs, unit mixes rejected; NDData '
+                     'uncertainties with their own (equivalent) unit or held as a variance for the PSF '
+                     'photometry classes, which convert them.',
                 note='the proof covers integer wrap-around only, at four call sites; bounded '
                      'otherwise'),
     'C16': dict(engine='coherence+pyvc', technique=f'{_T} (pixel set / weights / values of the '
@@ -239,7 +255,9 @@ CLAIMED = {
                      'and non-finite pixels '
                      'by exactly zero and every other pixel by its value; centroid_quadratic fits on a '
                      'full-size box inside the image that contains the peak pixel and returns the '
-                     'stationary point (a maximum) of the fitted polynomial. Exactness on symmetric / '
+                     'stationary point (a maximum) of the fitted polynomial; both boxes are derived from the '
+                     'verified _overlap_slices contract (over the assumed astropy window) and box sizes '
+                     'are clipped per axis by as_pair (scalar and pair forms). Exactness on symmetric / '
                      'quadratic sources is checked bounded.',
                 note='Gaussian fits bounded only'),
     'C18': dict(engine='effects+pyvc', technique=f'{_T} (frames, loop independence, residual = '
@@ -249,7 +267,8 @@ CLAIMED = {
                      'input make_residual_image is, pixel by pixel, data minus the model image '
                      'made for the same shape, psf_shape and include_localbkg (non-finite data '
                      'stays non-finite); one table row adds, inside its window, the model at the '
-                     'pixel plus that row\'s local background and leaves every other pixel alone. Exact '
+                     'pixel plus that row\'s local background and leaves every other pixel alone; the window '
+                     'is the row\'s model_shape box centred on its position, clipped to the image. Exact '
                      'superposition, order invariance, additivity and units are checked bounded.',
                 note='model evaluation bounded only'),
     'C19': dict(engine='pyvc', technique=f'{_T} (monotone-prefix contract, coherence, frames) + '
